@@ -14,6 +14,7 @@ import (
 	goruntime "runtime"
 	"strconv"
 	"strings"
+	"sync/atomic"
 	"time"
 	"unicode/utf8"
 
@@ -33,12 +34,12 @@ type lrCase struct {
 	Timeout int      `json:"timeout"` // ms, default 10000
 	NoLibs  bool     `json:"nolibs"`
 	MaxEv   int      `json:"maxev"`
-	Alloc   bool     `json:"alloc"` // measure heap allocation of the case
-	Sandbox bool     `json:"sandbox"` // run in a sentinel directory and report file-system changes
-	Helpers bool     `json:"helpers"` // register the __flags helper
-	Gor     bool     `json:"gor"` // report the number of goroutines left behind by the case
-	Trace   string   `json:"trace"` // "", "ctx", "co", "all": record a hook trace (verif builds)
-	Raw     bool     `json:"raw"` // call the chunk with rt.Call directly instead of inside Thread.CallContext
+	Alloc   bool     `json:"alloc"`      // measure heap allocation of the case
+	Sandbox bool     `json:"sandbox"`    // run in a sentinel directory and report file-system changes
+	Helpers bool     `json:"helpers"`    // register the __flags helper
+	Gor     bool     `json:"gor"`        // report the number of goroutines left behind by the case
+	Trace   string   `json:"trace"`      // "", "ctx", "co", "all": record a hook trace (verif builds)
+	Raw     bool     `json:"raw"`        // call the chunk with rt.Call directly instead of inside Thread.CallContext
 	GorExp  *int     `json:"gor_expect"` // if set, wait (up to 3 s) for that number before reporting
 }
 
@@ -358,8 +359,9 @@ func luaRun(args []string) int {
 			if c.Gor {
 				left := settledGoroutines() - gorBefore
 				if c.GorExp != nil {
-					for i := 0; i < 3000 && left != *c.GorExp; i++ {
+					for i := 0; i < waitLimit() && left != *c.GorExp; i++ {
 						time.Sleep(time.Millisecond)
+						waited()
 						left = goruntime.NumGoroutine() - gorBefore
 					}
 				}
@@ -376,5 +378,18 @@ func luaRun(args []string) int {
 		return nil
 	})
 }
+
+// Waiting for goroutines to wind down is bounded per case (3 s) and per driver process: once a minute has been spent
+// waiting in vain (a change that leaks goroutines makes every such wait expire) the per-case bound drops to 100 ms.
+var waitedMs int64
+
+func waitLimit() int {
+	if atomic.LoadInt64(&waitedMs) > 60000 {
+		return 100
+	}
+	return 3000
+}
+
+func waited() { atomic.AddInt64(&waitedMs, 1) }
 
 func init() { register("lua-run", luaRun) }
